@@ -136,6 +136,15 @@ impl<'a, D: DependencyProvider> Encoder<'a, D> {
             solvable_id.display(self.cache.provider()),
         );
 
+        // A solvable that was requested directly (a soft requirement) was never
+        // revealed as the candidate of a requirement, so it is not yet known to
+        // the at-most-one tracker of its package. Register it here so that it
+        // cannot be installed next to another solvable of the same package.
+        if let Some(solvable) = solvable_id.solvable() {
+            let variable = self.state.variable_map.intern_solvable(solvable);
+            self.add_forbid_multiple_clauses(solvable, variable);
+        }
+
         // Extract the dependencies and constraints from the result.
         let (requirements, constraints) = match dependencies {
             Dependencies::Known(deps) => (&deps.requirements, &deps.constrains),
@@ -252,35 +261,7 @@ impl<'a, D: DependencyProvider> Encoder<'a, D> {
             // Add forbid constraints for this solvable on all other
             // solvables that have been visited already for the same
             // version set name.
-            let name_id = self.cache.provider().solvable_name(candidate);
-            let other_solvables = self
-                .state
-                .forbidden_clauses_added
-                .entry(name_id)
-                .or_default();
-            other_solvables.add(
-                candidate_var,
-                |a, b, positive| {
-                    let (watched_literals, kind) = WatchedLiterals::forbid_multiple(
-                        a,
-                        if positive { b.positive() } else { b.negative() },
-                        name_id,
-                    );
-                    let clause_id = self.state.clauses.alloc(watched_literals, kind);
-                    let watched_literals = self.state.clauses.watched_literals
-                        [clause_id.to_usize()]
-                    .as_mut()
-                    .expect("forbid clause must have watched literals");
-                    self.state
-                        .watches
-                        .start_watching(watched_literals, clause_id);
-                },
-                || {
-                    self.state
-                        .variable_map
-                        .alloc_forbid_multiple_variable(name_id)
-                },
-            );
+            self.add_forbid_multiple_clauses(candidate, candidate_var);
         }
 
         // Add the requirements clause
@@ -381,6 +362,41 @@ impl<'a, D: DependencyProvider> Encoder<'a, D> {
                 self.conflicting_clauses.push(clause_id);
             }
         }
+    }
+
+    /// Registers `candidate` with the at-most-one tracker of its package, adding
+    /// the clauses that forbid it from being installed together with any other
+    /// solvable of the same package that was registered before. Registering a
+    /// solvable twice has no effect.
+    fn add_forbid_multiple_clauses(&mut self, candidate: SolvableId, candidate_var: VariableId) {
+        let name_id = self.cache.provider().solvable_name(candidate);
+        let other_solvables = self
+            .state
+            .forbidden_clauses_added
+            .entry(name_id)
+            .or_default();
+        other_solvables.add(
+            candidate_var,
+            |a, b, positive| {
+                let (watched_literals, kind) = WatchedLiterals::forbid_multiple(
+                    a,
+                    if positive { b.positive() } else { b.negative() },
+                    name_id,
+                );
+                let clause_id = self.state.clauses.alloc(watched_literals, kind);
+                let watched_literals = self.state.clauses.watched_literals[clause_id.to_usize()]
+                    .as_mut()
+                    .expect("forbid clause must have watched literals");
+                self.state
+                    .watches
+                    .start_watching(watched_literals, clause_id);
+            },
+            || {
+                self.state
+                    .variable_map
+                    .alloc_forbid_multiple_variable(name_id)
+            },
+        );
     }
 
     /// Adds clauses to forbid any other clauses than the locked solvable to be installed.
